@@ -1573,8 +1573,6 @@ def fragment_reasons(d):
         elif it["k"] == "lib":
             if seen_design:
                 add("construct_after_design")
-            if it.get("external"):
-                add("external_library")
             if it.get("comments"):
                 add("comment")
             for c in it["cells"]:
@@ -1592,8 +1590,6 @@ def fragment_reasons(d):
                         add("instance_without_complete_reference")
                     if i.get("comments"):
                         add("comment")
-                    if i.get("lspell") is None:
-                        add("libraryRef_omitted")
                     if any(x.get("owner") is not None for x in i["props"]):
                         add("property_owner")
                     if any(x["t"] not in ("s", "i", "b") for x in i["props"]):
@@ -1634,8 +1630,9 @@ def to_adesign(d):
                 "name": nm(c["nm"]), "view": c["view"]["id"],
                 "ports": [{"name": nm(p["nm"]), "dir": DIRS[p["dir"]], "array": p["width"]} for p in c["ports"]],
                 "insts": [{"name": nm(i["nm"]), "li": i["ref"][0], "di": i["ref"][1], "vsp": i["vspell"], "csp": i["cspell"],
-                           "lsp": i["lspell"],
+                           "lsp": (i["lspell"] if i.get("lspell") is not None else libs[i["ref"][0]]["nm"]["id"]),
+                           "lomit": i.get("lspell") is None,
                            "props": [{"name": nm(x["nm"]), "t": x["t"], "v": x["v"]} for x in i["props"]]} for i in c["insts"]],
                 "nets": nets})
-        out["libs"].append({"name": nm(L["nm"]), "cells": cells})
+        out["libs"].append({"name": nm(L["nm"]), "cells": cells, "ext": bool(L.get("external"))})
     return out
